@@ -2,6 +2,11 @@
   Driver.KeccakD — line-protocol handlers for Model.Keccak / Model.Sha3 with Spec.Keccak as the second answer (C04).
 
     keccak <b> <r> <N|L> <msg> <bitlen|None> <d>     sponge output (d bits, packed)        N = NIST last byte, L = native
+    keccak <b> <r> <N|L> <msg> <bitlen|None> <d> [setrate=<r1>] [r=<rc>]
+                                                      the object is built with rate r, `setrate(r1)` is called on it, then it is
+                                                      called with the per-call rate rc:   <result>|<r>,<c> of the object afterwards
+    keccak.single <224|256|384|512> <N|L> <msg> <bitlen|None> [r=<rc>]
+                                                      the module-level object keccak_<n>, same answer format
     keccak.blocks <r> <N|L> <msg> <bitlen|None>       the blocks `iterblocks` yields         size:ival;…
     keccak.f <w> <25 lanes>   keccak.round <w> <i> <25 lanes>                                l<25 lanes>
     keccak.loaddump <w> b<size>:<ival> <r>            State(w).load(B) lanes ; dump(r)
@@ -52,6 +57,59 @@ def sponge (b r : Nat) (lsb : Bool) (M : List Nat) (bitlen : Option Nat) (d : Na
     else fmtBytes (Spec.Keccak.bytesOfBits (Spec.Keccak.keccak (b / 25) r (specBits lsb M bitlen) d))
   (m, s)
 
+/-- options after the six positional tokens: `setrate=<n>` (object level, first) and `r=<n>` (per call) -/
+def parseOpts? : List String → Option (Option Nat × Option Nat)
+  | [] => some (none, none)
+  | t :: ts => do
+    let (sr, rc) ← parseOpts? ts
+    match t.splitOn "=" with
+    | ["setrate", v] => if sr.isSome then none else do let v ← v.toNat?; pure (some v, rc)
+    | ["r", v] => if rc.isSome then none else do let v ← v.toNat?; pure (sr, some v)
+    | _ => none
+
+/-- result of a call with the hang of a rate 0 handed to `iterblocks` made visible -/
+def fmtRes : Except Err (List Nat) → String
+  | .ok bs => fmtBytes bs
+  | .error e => if e.startsWith "hang" then "HANG" else "ERR"
+
+/-- `r,c` attributes of the object (c = b − r may be negative for a constructed rate beyond b) -/
+def fmtAttrs (b r : Nat) : String := s!"{r},{(b : Int) - (r : Int)}"
+
+/-- object `c0` (rate already constructed) → `setrate(sr)` → `__call__(M,bitlen,r=rc)`; answers `result|r,c` -/
+def rateCallModel (c0 : Keccak.Cfg) (sr rc : Option Nat) (M : List Nat) (bitlen : Option Nat) : String :=
+  let afterSet : Keccak.Cfg × Bool := match sr with
+    | none => (c0, true)
+    | some r1 => match Keccak.setrate c0 r1 with
+      | .ok c => (c, true)
+      | .error _ => (c0, false)
+  if ¬ afterSet.2 then "ERR|" ++ fmtAttrs c0.b afterSet.1.r else
+  let (c', res) := Keccak.callR afterSet.1 M bitlen rc
+  fmtRes res ++ "|" ++ fmtAttrs c'.b c'.r
+
+/-- the reference: SPONGE[Keccak-f[b], pad10*1, re](N, d) at the rate in force for THIS call (re = the per-call
+    rate, else the rate set by setrate, else the constructed one); afterwards the object holds the rate it was given
+    by the constructor / setrate, the per-call rate leaves no trace -/
+def rateCallSpec (b r0 : Nat) (sr rc : Option Nat) (lsb : Bool) (M : List Nat) (bitlen : Option Nat) (d : Nat) : String :=
+  let robj := sr.getD r0
+  let re := rc.getD robj
+  if ¬ widths.contains b ∨ r0 > 1536 ∨ robj > 1536 ∨ re = 0 ∨ re ≥ b ∨ re > 1536 then "-"
+  else if bitlen.getD 0 > 8 * M.length then "ERR|" ++ fmtAttrs b robj
+  else fmtBytes (Spec.Keccak.bytesOfBits (Spec.Keccak.keccak (b / 25) re (specBits lsb M bitlen) d)) ++ "|" ++ fmtAttrs b robj
+
+def spongeOpts (b r : Nat) (lsb : Bool) (M : List Nat) (bitlen : Option Nat) (d : Nat) (sr rc : Option Nat) : String × String :=
+  let m := match Keccak.mk b r (some d) with
+    | .error _ => "ERR"
+    | .ok c => rateCallModel { c with duplexing := lsb } sr rc M bitlen
+  (m, rateCallSpec b r sr rc lsb M bitlen d)
+
+/-- `keccak_<n>` of the Keccak submission: Keccak[r = 1600 − 2n, c = 2n] with n output bits -/
+def single (n : Nat) (lsb : Bool) (M : List Nat) (bitlen : Option Nat) (rc : Option Nat) : String × String :=
+  let m := match Keccak.singleton n with
+    | .error _ => "ERR"
+    | .ok c => rateCallModel { c with duplexing := lsb } none rc M bitlen
+  let s := if [224, 256, 384, 512].contains n then rateCallSpec 1600 (1600 - 2 * n) none rc lsb M bitlen n else "ERR"
+  (m, s)
+
 def blocks (r : Nat) (lsb : Bool) (M : List Nat) (bitlen : Option Nat) : String × String :=
   let m := fmtE fmtBitsList (Keccak.iterblocks r lsb M bitlen)
   let s :=
@@ -94,6 +152,17 @@ def handle : Handler := fun op args =>
       let b ← parseNat? b; let r ← parseNat? r; let lsb ← parseMode? mode
       let msg ← parseBytes? msg; let bl ← parseOptNat? bl; let d ← parseNat? d
       pure (sponge b r lsb msg bl d)
+  | "keccak", b :: r :: mode :: msg :: bl :: d :: opts => do
+      let b ← parseNat? b; let r ← parseNat? r; let lsb ← parseMode? mode
+      let msg ← parseBytes? msg; let bl ← parseOptNat? bl; let d ← parseNat? d
+      let (sr, rc) ← parseOpts? opts
+      pure (spongeOpts b r lsb msg bl d sr rc)
+  | "keccak.single", n :: mode :: msg :: bl :: opts => do
+      let n ← parseNat? n; let lsb ← parseMode? mode
+      let msg ← parseBytes? msg; let bl ← parseOptNat? bl
+      let (sr, rc) ← parseOpts? opts
+      if sr.isSome then none else
+      pure (single n lsb msg bl rc)
   | "keccak.blocks", [r, mode, msg, bl] => do
       let r ← parseNat? r; let lsb ← parseMode? mode
       let msg ← parseBytes? msg; let bl ← parseOptNat? bl
